@@ -137,6 +137,15 @@ func runUnit(res *common.Result) {
 		}
 		return sc
 	}
+	// withCtx: every task of the scenario runs in context c1, which has up, before and after hooks
+	withCtx := func(sc Scenario) Scenario {
+		sc.Ctxs = []CtxCfg{{Name: "c1", Up: []string{"up1:c1", "up2:c1"}, Before: []string{"cb:c1", "cb2:c1"}, After: []string{"ca:c1"}}}
+		sc.Tasks = append([]TaskCfg{}, sc.Tasks...)
+		for i := range sc.Tasks {
+			sc.Tasks[i].Ctx = "c1"
+		}
+		return sc
+	}
 	type item struct {
 		sc    Scenario
 		bound int
@@ -199,6 +208,7 @@ func runUnit(res *common.Result) {
 			{mkPar(2, 1, false, 0, 1, false), 1}, {mkPar(2, 1, true, 0, 1, false), 1}, {mkPar(2, 2, false, 0, 1, false), 0},
 			{mkPar(2, 1, false, 1, 2, false), 0}, {mkPar(2, 1, false, 1, 2, true), 0},
 			{mkPar(3, 1, false, 0, 1, false), 0}, {mkPar(3, 1, false, 1, 1, false), 0},
+			{withCtx(mkPar(1, 1, false, 0, 1, false)), 2}, {withCtx(mkPar(1, 1, false, 1, 1, true)), 1}, {withCtx(mkPar(2, 1, false, 0, 1, false)), 0},
 			{sameObj(2, 1, false, 0, 1, false), 1}, {sameObj(2, 1, false, 1, 2, false), 0}, {sameObj(2, 1, true, 0, 1, false), 0}, {sameObj(3, 1, false, 0, 1, false), 0},
 		})
 	case "cancel-unbounded": // every interleaving (no preemption bound) of one run and one canceller
